@@ -384,6 +384,24 @@ def eval_case(c):
                     V('dict-front-end-differs', f'{nm}: dual_dissipation_from_dict_or_world_instance gives {xw!r} but quick_dual_body_tidal_dissipation gives {x0!r} for the same bodies and state')
         except ZeroDivisionError:
             pass
+        # I9 (dual): each body's dissipation equals the single-body result for that body with the other body as the tide raiser (nothing is shared
+        # between the two evaluations except what is the same for both: the orbit)
+        if c10:
+            bodies = (('host', R, mass, g, rho, C, m2, 0), ('secondary', R2, m2, g2, rho2, 0.4 * m2 * R2 * R2, mass, 1))
+            for nm_b, Rb, mb, gb, rb, Cb, raiser, bi in bodies:
+                try:
+                    cnt['calls'] += 1
+                    rs1 = quick_tidal_dissipation(raiser, Rb, mb, gb, rb, Cb, viscosity=(c['visc'], c['visc'] * 3)[bi], shear_modulus=(c['mu'], c['mu'] * 0.6)[bi], rheology=rheos[bi],
+                                                  eccentricity=f(e), obliquity=f(obls[bi]), orbital_frequency=f(n), spin_frequency=f(spins[bi]), max_tidal_order_l=c['lmax'],
+                                                  eccentricity_truncation_lvl=c['N'], fixed_k2=(c['k2'], c['k2'] * 0.5)[bi], fixed_q=(c['q'], c['q'] * 2)[bi])
+                except ZeroDivisionError:
+                    continue
+                for q_ in ('tidal_heating', 'dUdM', 'dUdw', 'dUdO'):
+                    x0, x1 = first(r[nm_b][q_]), first(rs1[q_])
+                    cnt['identities_checked'] += 1
+                    if math.isfinite(x0) and math.isfinite(x1) and abs(x0 - x1) > 1e-12 * max(abs(x0), abs(x1)):
+                        V('dual-body-differs-from-single-body', f'{nm_b}.{q_}: {x0!r} from quick_dual_body_tidal_dissipation but {x1!r} from quick_tidal_dissipation for the same body, tide raiser and state (obliquities {obls}, rheologies {rheos})')
+                        break
         # I7 (dual): one world's spin given as a frequency and the other's as a period describes the same state
         rat2 = spins[1] / n
         if spins[1] != 0.0 and not any(abs(rat2 * m_ - round(rat2 * m_)) < 1e-6 for m_ in range(1, 8)):
